@@ -298,34 +298,6 @@ def fso_scores(a):
     return out
 
 
-def fso_odd(c):
-    """trigger of A-29: some component has an odd number of negative sign scores"""
-    return c.op == "fixsigns_other" and any(sum(1 for x in sc if x < 0) % 2 == 1 for sc in fso_scores(c.args))
-
-
-TRIGGERS = {"fixsigns_other_odd_negative_scores": fso_odd}
-
-
-def _witness_A29():
-    import numpy as np
-    import pyttb as ttb
-    eye = np.eye(2)
-    a = ttb.ktensor([eye.copy(), eye.copy(), eye.copy()], np.array([1.0, 1.0]))
-    b = ttb.ktensor([-eye.copy(), -eye.copy(), -eye.copy()], np.array([1.0, 1.0]))
-    before = a.full().data.copy()
-    try:
-        r = a.copy().fixsigns(b.copy())
-    except Exception as ex:
-        return f"fixsigns(other) raised {type(ex).__name__}"
-    after = r.full().data
-    if not np.allclose(before, after):
-        return "fixsigns(other) negated an odd number of factors of a component: the tensor changed"
-    return None
-
-
-WITNESSES = {"A-29": _witness_A29}
-
-
 # ----------------------------------------------------------------------------------------------------------------
 # pyttb runner
 # ----------------------------------------------------------------------------------------------------------------
@@ -369,7 +341,7 @@ def run_impl(c):
         if c.op == "fixsigns_other":
             L = mk_k(ttb, np, a["w2"], a["f2"])
             K.fixsigns(L)
-            return {"ok": tgen.obs_ktensor(np, K)}
+            return {"ok": tgen.obs_ktensor(np, K), "other": tgen.obs_ktensor(np, L)}
         if c.op == "permute":
             return {"ok": tgen.obs_ktensor(np, K.permute(np.array(a["order"])))}
         if c.op == "vec_roundtrip":
@@ -453,6 +425,7 @@ def coq_check(c, o):
                 nf.append("q_nonneg (kweights O)")
                 if a["wf"] is None:
                     nf.append(f"qk_unit_cols {a['normtype']} O")
+                    nf.append("qk_zero_weight O")
                     if a["sort"]:
                         nf.append("q_desc (kweights O)")
                 else:
@@ -461,7 +434,7 @@ def coq_check(c, o):
             post = "(fun G => G)" if a["wf"] is None else f"(qk_redistribute {int(a['wf'])})"
             agree = f"qk_sorted_of {post} (qk_normalize 2 WNone false None K) O"
             nf = ["q_nonneg (kweights O)"]
-            nf.append("q_desc (kweights O) && qk_unit_cols 2 O" if a["wf"] is None else "q_all_one (kweights O)")
+            nf.append("q_desc (kweights O) && qk_unit_cols 2 O && qk_zero_weight O" if a["wf"] is None else "q_all_one (kweights O)")
         return (f"let K := {K} in let O := {O} in {agree} && qk_den_close {shp} K O"
                 + "".join(" && " + x for x in nf))
     if c.op == "fixsigns_other":
@@ -469,8 +442,9 @@ def coq_check(c, o):
         L = gqk(a["w2"], a["f2"])
         O = gqk(ob["weights"], ob["factors"])
         ties = any(len(set(abs(x) for x in sc)) < len(sc) or any(x == 0 for x in sc) for sc in fso_scores(a))
-        agree = "true" if ties else "qk_close (qk_fixsigns_other K L) O"
-        return f"let K := {K} in let L := {L} in let O := {O} in {agree} && qk_den_close {shp} K O"
+        agree = "true" if ties else "qk_close (qk_fixsigns_other K L) O && qk_sign_nf K L O"
+        same_other = "true" if (o["other"]["weights"] == a["w2"] and o["other"]["factors"] == a["f2"]) else "false"
+        return f"let K := {K} in let L := {L} in let O := {O} in {agree} && qk_den_close {shp} K O && {same_other}"
     if c.op == "tolist":
         K = gqk(a["w"], a["f"])
         F = gqmats(ob["factors"])
@@ -607,6 +581,13 @@ def oracle(c, o):
                     n2 = sum(abs(x) for x in colv) if nt == 1 else sum(x * x for x in colv)
                     if n2 != 0 and not close(n2, 1, Fraction(1, 10 ** 6)):
                         return "column not of unit norm"
+                    if n2 == 0 and w[r] != 0:
+                        return f"component {r} has a zero column but weight {float(w[r])} (normal form: weight 0)"
+    if c.op == "normalize" and a.get("mode") is not None:
+        A = ob["factors"][a["mode"]]
+        for r in range(len(w)):
+            if all(Fraction(row[r]) == 0 for row in A) and w[r] != 0:
+                return f"normalize(mode={a['mode']}): component {r} has a zero column in that mode but weight {float(w[r])}"
     if c.op == "redistribute" and any(x != 1 for x in w):
         return "weights not all one after redistribute"
     return None
